@@ -22,7 +22,7 @@ func init() {
 			"(b) Exec(n, R) for every node n of every kind (element, attribute, namespace, text, comment, PI, root) x relative expressions vs the model with context (n,1,1); (c) position() and last() as whole expressions from every start node; (b') the same with fewer bindings than the document has declarations: a prefix the query does not bind is an error from every start node; " +
 			"(e) the same composition for prefixes that mix elements with their own attribute and namespace nodes — parenthesised unions (A | A/@* | A//@*) and node-set variables held in document, reverse and shuffled order — continued with /R and //R; (d) P/f() vs f(P) for f in {string, number, name, local-name, namespace-uri, string-length, normalize-space}. distinct_nontrivial = distinct (document shape, expression, split point / start-node kind) with a non-empty result",
 		Assumptions: []string{"function-call steps are generated only as zero-argument context-dependent builtins (the form the statement covers)", "absolute paths inside R are not generated (root of a sub-query is ambiguous)"},
-		NCases:      func(tier string) int { return map[string]int{"quick": 2500, "thorough": 40000}[tier] },
+		NCases:      func(tier string) int { return map[string]int{"quick": 2500, "thorough": 20000}[tier] },
 		Case:        c18Case,
 	})
 }
